@@ -30,4 +30,6 @@ if [ "${1:-}" = "C18" ] && [ "${2:-quick}" = "thorough" ]; then
   fi
   export VERIF_RACE_LOG="$W/race.log"
 fi
-VERIF_ROOT="${VERIF_OUT:-$ROOT}" VERIF_REPO="$REPO" "$W/vcheck" "$@"
+# address-space cap: a state explosion ends as a Go "out of memory" crash of this check (exit 2), not as the
+# kernel killing whatever else runs on the machine
+( ulimit -v "${VERIF_MEM_KB:-45000000}" 2>/dev/null; VERIF_ROOT="${VERIF_OUT:-$ROOT}" VERIF_REPO="$REPO" exec "$W/vcheck" "$@" )
